@@ -465,6 +465,25 @@ def det_sampler(repo, tier="quick"):
                     obs.append(ob_fail(oid, fi, call, construct=t.name, instance="source",
                                        reason="a random source other than the seeded random.choice/choices is used"))
     need(n_draws >= 3, "anchor vanished: fewer than 3 random.* calls in sample.py", None)
+    from .prov import _set_typed as _st
+    for fi in m.functions.values():
+        fl2 = fi.flow
+        its = [(nd.ast.iter, nd.id, nd.ast) for nd in fi.cfg.nodes if nd.kind == "for"]
+        for sub in ast.walk(fi.node):
+            if isinstance(sub, (ast.ListComp, ast.DictComp, ast.GeneratorExp)) and id(sub) in fi.cfg.owner:
+                for g in sub.generators:
+                    its.append((g.iter, fi.cfg.owner[id(sub)], sub))
+            if isinstance(sub, ast.Call) and id(sub) in fi.cfg.owner and isinstance(sub.func, ast.Name) and sub.func.id in ("list", "tuple", "enumerate", "zip") and sub.args:
+                its.append((sub.args[0], fi.cfg.owner[id(sub)], sub))
+        for itx, nid, where in its:
+            t = strip_wrappers(fl2.canon(itx, nid))
+            if _st(fl2, t):
+                inside_sorted = any(isinstance(sup, ast.Call) and isinstance(sup.func, ast.Name) and sup.func.id in ("sorted", "len", "sum", "min", "max", "any", "all", "set", "frozenset")
+                                    and sup is not where and sup is not itx and any(x is where or x is itx for x in ast.walk(sup)) for sup in ast.walk(fi.node))
+                if not inside_sorted:
+                    obs.append(ob_fail(oid, fi, where, construct="iteration over %s" % show(t), instance="set-order:" + fi.qualname,
+                                       reason="a set is iterated in an order-sensitive position: tables that feed the random draws depend on the interpreter's hash seed, "
+                                              "so one sampler seed gives different molecules in different processes"))
     # seeding in __init__
     fi = m.function("MoleculeSampler.__init__")
     fl, cfg = fi.flow, fi.cfg
